@@ -1,0 +1,322 @@
+//! Verification hooks: thin public wrappers around crate-internal functions.
+//!
+//! Compiled only with the `verif-hooks` feature; no behaviour of the crate
+//! changes with the feature on or off.
+
+use std::collections::HashSet;
+use std::io::Cursor;
+use std::str::FromStr;
+
+use rand::prelude::*;
+use rand_pcg::Pcg32;
+
+use crate::bearing::process_path_bearing;
+use crate::context::{ElementMap, TransformerContext};
+use crate::element::SvgElement;
+use crate::events::{InputList, OutputList};
+use crate::expression::{eval_attr, eval_condition, eval_list, eval_vars};
+use crate::position::{
+    strp_length, BoundingBox, Length, LocSpec, Position, ScalarSpec, TrblLength,
+};
+use crate::text::process_text_attr;
+use crate::themes::{ThemeBuilder, ThemeType};
+use crate::transform::Transformer;
+use crate::transform_attr::TransformAttr;
+use crate::TransformConfig;
+
+type R<T> = std::result::Result<T, String>;
+
+fn es<T>(r: crate::Result<T>) -> R<T> {
+    r.map_err(|e| format!("{:?}", e))
+}
+
+pub fn fstr(x: f32) -> String {
+    crate::types::fstr(x)
+}
+
+pub fn strp(s: &str) -> R<f32> {
+    es(crate::types::strp(s))
+}
+
+pub fn split_unit(s: &str) -> R<(f32, String)> {
+    es(crate::types::split_unit(s))
+}
+
+pub fn attr_split(s: &str) -> Vec<String> {
+    crate::types::attr_split(s).collect()
+}
+
+fn bb(v: [f32; 4]) -> BoundingBox {
+    BoundingBox::new(v[0], v[1], v[2], v[3])
+}
+
+fn arr(b: BoundingBox) -> [f32; 4] {
+    [b.x1, b.y1, b.x2, b.y2]
+}
+
+/// fields: xmin ymin xmax ymax cx cy width height dx dy
+pub fn position_to_bbox(shape: &str, v: [Option<f32>; 10]) -> Option<[f32; 4]> {
+    let mut p = Position::new(shape);
+    p.xmin = v[0];
+    p.ymin = v[1];
+    p.xmax = v[2];
+    p.ymax = v[3];
+    p.cx = v[4];
+    p.cy = v[5];
+    p.width = v[6];
+    p.height = v[7];
+    p.dx = v[8];
+    p.dy = v[9];
+    p.to_bbox().map(arr)
+}
+
+pub fn bbox_locspec(b: [f32; 4], loc: &str) -> R<(f32, f32)> {
+    let ls: LocSpec = es(loc.parse())?;
+    Ok(bb(b).locspec(ls))
+}
+
+pub fn bbox_scalarspec(b: [f32; 4], ss: &str) -> R<f32> {
+    let ss: ScalarSpec = es(ss.parse())?;
+    Ok(bb(b).scalarspec(ss))
+}
+
+pub fn bbox_combine(a: [f32; 4], b: [f32; 4]) -> [f32; 4] {
+    arr(bb(a).combine(&bb(b)))
+}
+
+pub fn bbox_intersect(a: [f32; 4], b: [f32; 4]) -> Option<[f32; 4]> {
+    bb(a).intersect(&bb(b)).map(arr)
+}
+
+pub fn bbox_expand(a: [f32; 4], x: f32, y: f32) -> [f32; 4] {
+    let mut b = bb(a);
+    b.expand(x, y);
+    arr(b)
+}
+
+pub fn bbox_round(a: [f32; 4]) -> [f32; 4] {
+    let mut b = bb(a);
+    b.round();
+    arr(b)
+}
+
+pub fn bbox_trbl(a: [f32; 4], trbl: &str, expand: bool) -> R<[f32; 4]> {
+    let t: TrblLength = es(trbl.parse())?;
+    let mut b = bb(a);
+    if expand {
+        b.expand_trbl_length(t);
+    } else {
+        b.shrink_trbl_length(t);
+    }
+    Ok(arr(b))
+}
+
+pub fn length_parse(s: &str) -> R<(bool, f32)> {
+    match es(strp_length(s))? {
+        Length::Absolute(a) => Ok((false, a)),
+        Length::Ratio(r) => Ok((true, r)),
+    }
+}
+
+pub fn length_calc_offset(s: &str, start: f32, end: f32) -> R<f32> {
+    Ok(es(strp_length(s))?.calc_offset(start, end))
+}
+
+pub fn length_adjust(s: &str, v: f32) -> R<f32> {
+    Ok(es(strp_length(s))?.adjust(v))
+}
+
+pub fn length_evaluate(s: &str, base: f32) -> R<f32> {
+    Ok(es(strp_length(s))?.evaluate(base))
+}
+
+pub fn transform_apply(xfrm: &str, b: [f32; 4]) -> R<[f32; 4]> {
+    let t: TransformAttr = es(xfrm.parse())?;
+    Ok(arr(t.apply(&bb(b))))
+}
+
+pub fn path_bbox(d: &str) -> R<Option<[f32; 4]>> {
+    let el = SvgElement::new("path", &[("d".to_string(), d.to_string())]);
+    Ok(es(crate::path::path_bbox(&el))?.map(arr))
+}
+
+pub fn path_bearing(d: &str) -> R<String> {
+    es(process_path_bearing(d))
+}
+
+fn ctx_with(vars: &[(String, String)], seed: u64) -> TransformerContext {
+    let cfg = TransformConfig {
+        seed,
+        ..Default::default()
+    };
+    let mut ctx = TransformerContext::from_config(&cfg);
+    for (k, v) in vars {
+        ctx.set_var(k, v);
+    }
+    ctx
+}
+
+fn draws(ctx: &TransformerContext, seed: u64) -> Option<u32> {
+    use crate::context::VariableMap;
+    let now = ctx.get_rng().borrow().clone();
+    let mut r = Pcg32::seed_from_u64(seed);
+    for k in 0..100_000u32 {
+        if r == now {
+            return Some(k);
+        }
+        let _: u32 = r.random();
+    }
+    None
+}
+
+/// Evaluate an attribute value with the given variables; also reports how many
+/// 32-bit draws were taken from the RNG.
+pub fn eval_attr_with(vars: &[(String, String)], seed: u64, value: &str) -> (R<String>, Option<u32>) {
+    let ctx = ctx_with(vars, seed);
+    let r = es(eval_attr(value, &ctx));
+    let d = draws(&ctx, seed);
+    (r, d)
+}
+
+pub fn eval_vars_with(vars: &[(String, String)], value: &str) -> String {
+    let ctx = ctx_with(vars, 0);
+    eval_vars(value, &ctx)
+}
+
+pub fn eval_condition_with(vars: &[(String, String)], seed: u64, value: &str) -> R<bool> {
+    let ctx = ctx_with(vars, seed);
+    es(eval_condition(value, &ctx))
+}
+
+pub fn eval_list_with(vars: &[(String, String)], seed: u64, value: &str) -> R<Vec<String>> {
+    let ctx = ctx_with(vars, seed);
+    es(eval_list(value, &ctx))
+}
+
+pub type RawElement = (String, Vec<(String, String)>);
+
+fn mk_el(e: &RawElement, idx: usize) -> SvgElement {
+    let mut el = SvgElement::new(&e.0, &e.1);
+    el.set_order_index(&crate::types::OrderIndex::new(idx));
+    el
+}
+
+fn el_out(e: &SvgElement) -> RawElement {
+    let mut attrs = e.attrs.to_vec();
+    if !e.classes.is_empty() {
+        attrs.push(("class".to_string(), e.classes.to_vec().join(" ")));
+    }
+    (e.name.clone(), attrs)
+}
+
+/// Run the one-element positioning pipeline (as `OtherElement` does) for `el`
+/// against a context holding `known` (already resolved) elements; `prev` indexes `known`.
+pub fn resolve_element(known: &[RawElement], prev: Option<usize>, el: &RawElement) -> R<RawElement> {
+    let mut ctx = TransformerContext::new();
+    for (i, k) in known.iter().enumerate() {
+        let k = mk_el(k, i);
+        ctx.update_element(&k);
+        if prev == Some(i) {
+            ctx.set_prev_element(&k);
+        }
+    }
+    let mut e = mk_el(el, known.len());
+    es(e.resolve_position(&ctx))?;
+    es(e.transmute(&ctx))?;
+    es(e.resolve_position(&ctx))?;
+    Ok(el_out(&e))
+}
+
+/// Bounding box the context reports for an element given as raw attributes.
+pub fn element_bbox(known: &[RawElement], el: &RawElement) -> R<Option<[f32; 4]>> {
+    let mut ctx = TransformerContext::new();
+    for (i, k) in known.iter().enumerate() {
+        ctx.update_element(&mk_el(k, i));
+    }
+    let e = mk_el(el, known.len());
+    Ok(es(ctx.get_element_bbox(&e))?.map(arr))
+}
+
+/// `process_text_attr` on a resolved element: (shape element, text/tspan elements with content)
+pub fn text_attr(el: &RawElement) -> R<(RawElement, Vec<(RawElement, Option<String>)>)> {
+    let e = mk_el(el, 0);
+    let (orig, texts) = es(process_text_attr(&e))?;
+    Ok((
+        el_out(&orig),
+        texts
+            .iter()
+            .map(|t| (el_out(t), t.text_content.clone()))
+            .collect(),
+    ))
+}
+
+pub fn theme_build(
+    theme: &str,
+    classes: &[String],
+    elements: &[String],
+    background: &str,
+    font_size: f32,
+    font_family: &str,
+    local_id: Option<&str>,
+) -> R<(Vec<String>, Vec<String>)> {
+    let cfg = TransformConfig {
+        theme: es(ThemeType::from_str(theme))?,
+        background: background.to_string(),
+        font_size,
+        font_family: font_family.to_string(),
+        ..Default::default()
+    };
+    let mut ctx = TransformerContext::from_config(&cfg);
+    ctx.local_style_id = local_id.map(|s| s.to_string());
+    let classes: HashSet<String> = classes.iter().cloned().collect();
+    let elements: HashSet<String> = elements.iter().cloned().collect();
+    let mut tb = ThemeBuilder::new(&ctx, &elements, &classes);
+    tb.build();
+    Ok((tb.get_defs(), tb.get_styles()))
+}
+
+/// read -> convert -> write, without any processing (the pass-through path)
+pub fn reader_writer_roundtrip(input: &[u8]) -> R<Vec<u8>> {
+    let mut rd = Cursor::new(input.to_vec());
+    let il = es(InputList::from_reader(&mut rd))?;
+    let ol: OutputList = il.into();
+    let mut out = Vec::new();
+    es(ol.write_to(&mut out))?;
+    Ok(out)
+}
+
+#[derive(Debug, Clone)]
+pub struct Probe {
+    pub result: R<Vec<u8>>,
+    pub depth: u32,
+    pub scope_height: usize,
+    pub element_stack_height: usize,
+    pub in_specs: bool,
+    pub rng_draws: Option<u32>,
+    pub multi_error_lines: Vec<(usize, String)>,
+}
+
+/// Full transform plus the end-of-run state of the context.
+pub fn transform_probe(input: &[u8], cfg: &TransformConfig) -> Probe {
+    let mut t = Transformer::from_config(cfg);
+    let mut rd = Cursor::new(input.to_vec());
+    let mut out = Vec::new();
+    let r = t.transform(&mut rd, &mut out);
+    let mut lines = vec![];
+    if let Err(crate::errors::SvgdxError::MultiError(m)) = &r {
+        for (_, (el, err)) in m.iter() {
+            lines.push((el.src_line, format!("{:?}", err)));
+        }
+        lines.sort();
+    }
+    let (depth, scope_height, element_stack_height, in_specs) = t.context.verif_probe();
+    Probe {
+        result: es(r).map(|_| out),
+        depth,
+        scope_height,
+        element_stack_height,
+        in_specs,
+        rng_draws: draws(&t.context, t.context.config.seed),
+        multi_error_lines: lines,
+    }
+}
